@@ -5,14 +5,16 @@ PROPS = {
                 text="Every payload sequence written by the real codecs / transport.Conn.Send is read back by the real reader through adversarial read chunkings and compared byte for byte; "
                      "4-byte frames must surface as ProtocolErr with the negated code; transport.Listen must pick the codec the client chose (direct and through ObfuscatedListener); "
                      "frames of 2..8 concurrent senders on one Conn must arrive exactly once, intact and in per-sender order. Payload lengths: every multiple of 4 in 4..2048 exhaustive per "
-                     "protocol/wrap/chunking class, 2^k and 2^k+-4 up to 1 MiB (16 MiB thorough), the frame limit itself, random beyond.",
-                note="Schedules and sequences beyond the exhaustive length grid are sampled; the byte pipe, chunking reader and checker are harness code; obfuscated2 is used only as a stream wrapper.",
+                     "protocol/wrap, 2^k and 2^k+-4 up to 64 KiB plus ~1 MiB frames (thorough: up to 16 MiB and the frame limit itself), random beyond.",
+                note="Schedules and sequences beyond the exhaustive length grid are sampled; the byte pipe, chunking reader and checker are harness code; obfuscated2 is used only as a stream wrapper; "
+                     "16 MiB frames (frame limit) only in the thorough tier (fresh memory under -race is very slow on the check machine).",
                 watchdog={"quick": 900, "thorough": 3600}),
     "C17": dict(engine="codecmon17", race=False, level="exploration", design="C17",
                 technique="crash observation in child processes + allocation meter (MemStats.TotalAlloc per call) on hostile transport input",
                 text="Hostile byte streams (exhaustive short length prefixes 0..64, 2^k, 2^k+-1, limit neighbours, negative values in every protocol's prefix encoding; mutated / truncated valid streams; "
                      "random bytes; chosen plaintexts behind the obfuscated2 listener) are fed to codec.Read, ReadHeader+Read and transport.Listen(..).Accept+Recv in a child without recover; "
                      "process death or a single call allocating more than the 16 MiB frame limit + 4 MiB is a violation; unmodified control streams must decode.",
-                note="Inputs beyond the exhaustive prefix core are sampled. Allocation bound 16 MiB + 4 MiB slack; the reader never supplies a claimed oversized body.",
+                note="Inputs beyond the exhaustive prefix core are sampled. Allocation bound 16 MiB + 4 MiB slack; the reader never supplies a claimed oversized body. After 24 observed process deaths "
+                     "further panics are reported in-band by the child (same value and stack); after 40 GiB-scale allocation events the remaining inputs are not run (verdict already violated).",
                 watchdog={"quick": 900, "thorough": 3600}),
 }
